@@ -158,6 +158,20 @@ pub fn verif_dir() -> PathBuf {
         .unwrap_or_else(|| PathBuf::from("/verif"))
 }
 
+/// Where replay files of violations found at run time go (overridable for runs against scratch
+/// copies of the repository, so that they do not mix with runs against /repo).
+pub fn replay_dir() -> PathBuf {
+    std::env::var_os("FV_REPLAY_DIR")
+        .map(PathBuf::from)
+        .unwrap_or_else(|| verif_dir().join("replays"))
+}
+
+pub fn evidence_dir() -> PathBuf {
+    std::env::var_os("FV_EVIDENCE_DIR")
+        .map(PathBuf::from)
+        .unwrap_or_else(|| verif_dir().join("evidence"))
+}
+
 pub fn load_known() -> KnownFindings {
     let p = verif_dir().join("known_findings.json");
     match fs::read_to_string(&p) {
@@ -353,7 +367,7 @@ impl Ctx {
             case,
         };
         let text = serde_json::to_string_pretty(&file).unwrap();
-        let dir = verif_dir().join("replays");
+        let dir = replay_dir();
         let _ = fs::create_dir_all(&dir);
         let name = format!("{}-{}-{:016x}.json", self.prop, oracle, hash64(&text));
         let path = dir.join(name);
